@@ -142,20 +142,26 @@ UnaryClauses(c, o) ==
            Cl("dual", "lc", MVIs(o.lcd, D, n)),
            Cl("dual", "geo", MVIs(o.geod, D, n)),
            Cl("norm-squared", "norm_squared", ScIs(o.nsq, NS)),
-           \* the inverse of every non-null blade times the blade is 1: decided
-           \* for multiples of basis blades and for vectors
+           \* the inverse of every non-null blade times the blade is 1.  A value that
+           \* inv() RETURNS is judged on every input (it must be a two-sided inverse);
+           \* an answer is demanded (a refusal fails) for the non-null multiples of basis
+           \* blades and vectors; elsewhere a refusal is not judged (NA).
            Cl("inverse", "inv",
-              IF ~app THEN "NA"
-              ELSE IF o.inv.t # "mv" THEN "FAIL"
-              ELSE IF RUnrep(o.inv) THEN "SKIP"
-              ELSE LET X == RMV(o.inv)
-                       p1 == MVProd("geo", X, M, g)
-                       p2 == MVProd("geo", M, X, g)
-                   IN  St(MVBad(p1) \/ MVBad(p2), p1 = MVOne /\ p2 = MVOne)),
+              IF o.inv.t = "mv"
+              THEN IF RUnrep(o.inv) \/ MVBad(M) THEN "SKIP"
+                   ELSE LET X == RMV(o.inv)
+                            p1 == MVProd("geo", X, M, g)
+                            p2 == MVProd("geo", M, X, g)
+                        IN  St(MVBad(p1) \/ MVBad(p2), p1 = MVOne /\ p2 = MVOne)
+              ELSE IF app THEN "FAIL" ELSE "NA"),
            Cl("inverse", "inv*a",
-              IF ~app THEN "NA" ELSE Both(MVIs(o.inv_a, MVOne, n), MVIs(o.a_inv, MVOne, n))),
+              IF o.inv.t = "mv" \/ app
+              THEN Both(MVIs(o.inv_a, MVOne, n), MVIs(o.a_inv, MVOne, n))
+              ELSE "NA"),
            Cl("inverse", "div",
-              IF ~app THEN "NA" ELSE Both(MVIs(o.div, MVOne, n), MVIs(o.rdiv, MVOne, n))),
+              IF app THEN Both(MVIs(o.div, MVOne, n), MVIs(o.rdiv, MVOne, n))
+              ELSE Both(IF o.div.t = "mv" THEN MVIs(o.div, MVOne, n) ELSE "NA",
+                        IF o.rdiv.t = "mv" THEN MVIs(o.rdiv, MVOne, n) ELSE "NA")),
            Cl("power", "**",
               Both(MVIs(o.p0, MVOne, n),
                    Both(MVIs(o.p2, M2, n), MVIs(o.p3, MVProd("geo", M2, M, g), n)))) >>
@@ -244,6 +250,40 @@ SymClauses(c, o) ==
         All(j) == IF j > Len(c.pts) THEN << >> ELSE One(j) \o All(j + 1)
     IN  All(1)
 
+(******************************* symeq *************************************)
+(* Equality, hashing and truth-testing of multivectors whose coefficients   *)
+(* are expression trees.  Recorded data: [t |-> "tmv", mv |-> << word, tree *)
+(* >> terms] (the coefficient objects serialised node by node).  Tree-wise  *)
+(* equal (same) => must be equal, hash equal; different at one of the       *)
+(* evaluation points => must be unequal; different trees that agree at      *)
+(* every point (x + y / y + x): the value of == is not decided (SKIP), its  *)
+(* consistency (symmetry, != is its negation, equal => same hash) is.       *)
+RTreeOK(r, n) == r.t = "tmv" /\ TWellFormed(r.mv, n)
+TCtor(r, ts, n) == IF RTreeOK(r, n) /\ TMV(r.mv) = TMV(ts) THEN "OK" ELSE "FAIL"
+Bit(b) == b \in {0, 1}
+SymEqClauses(c, o) ==
+    LET ta == c.ra.ts
+        tb == c.rb.ts
+        same == TMV(ta) = TMV(tb)
+        P(j) == << QOf(c.pts[j][1]), QOf(c.pts[j][2]) >>
+        EA(j) == EvalTMV(ta, P(j))
+        EB(j) == EvalTMV(tb, P(j))
+        semdiff == \E j \in 1..Len(c.pts) : ~MVBad(EA(j)) /\ ~MVBad(EB(j)) /\ EA(j) # EB(j)
+        Val(x, y) == IF same THEN St(FALSE, x = 1 /\ y = 1)
+                     ELSE IF semdiff THEN St(FALSE, x = 0 /\ y = 0)
+                     ELSE "SKIP"
+    IN  << Cl("ctor-value", c.ra.via, TCtor(o.da, ta, c.n)),
+           Cl("ctor-value", c.rb.via, TCtor(o.db, tb, c.n)),
+           Cl("eq", "==", Val(o.eq, o.eqr)),
+           Cl("eq", "!=", Val(1 - o.ne, 1 - o.ner)),
+           Cl("eq-consistent", "==",
+              St(FALSE, /\ Bit(o.eq) /\ Bit(o.eqr) /\ Bit(o.ne) /\ Bit(o.ner)
+                        /\ o.eq = o.eqr /\ o.ne = 1 - o.eq /\ o.ner = 1 - o.eqr)),
+           \* an object is equal to itself (== is called, no identity shortcut)
+           Cl("eq-reflexive", "==", St(FALSE, o.eqa = 1 /\ o.nea = 0 /\ o.eqb = 1 /\ o.neb = 0)),
+           Cl("hash", "hash", St(FALSE, Bit(o.he) /\ (same => o.he = 1) /\ (o.eq = 1 => o.he = 1))),
+           Cl("bool", "bool", St(FALSE, o.ba = B01(TWords(ta) # {}) /\ o.bb = B01(TWords(tb) # {}))) >>
+
 (******************************** prog *************************************)
 \* a straight-line program over registers: value of every register by the M-layer
 RECURSIVE ProgVals(_, _, _, _)
@@ -282,6 +322,7 @@ Clauses(rec) ==
       [] rec.c.k = "eq"     -> EqClauses(rec.c, rec.o)
       [] rec.c.k = "prog"   -> ProgClauses(rec.c, rec.o)
       [] rec.c.k = "sym"    -> SymClauses(rec.c, rec.o)
+      [] rec.c.k = "symeq"  -> SymEqClauses(rec.c, rec.o)
 
 Report ==
     Idx <= Len(Recs) =>
